@@ -175,7 +175,7 @@ func tTag(c context, s []byte) (context, int) {
 		}
 		allVoid := true
 		for _, name := range names {
-			allVoid = allVoid && name != "" && voidElements[name]
+			allVoid = allVoid && name != "" && voidElements[name] && !c.element.continued
 			if name != c.element.name && (specialElements[name] || specialElements[c.element.name]) {
 				// e.g. `{{if .C}}<script{{else}}<div{{end}}>`: what follows is script source
 				// on one path and markup on the other, which cannot be followed.
